@@ -260,6 +260,7 @@ class Engine:
     def __init__(self, max_paths=400):
         self.max_paths = max_paths
         self.unsupported = []
+        self.entered = set()          # (module name, def line) of every real function whose body some path executed
         self.budget_s = int(os.environ.get('PYVC_EXPLORE_BUDGET_S', '120'))
         self.deadline = time.time() + self.budget_s
 
@@ -625,6 +626,7 @@ class Interp:
             raise Unsupported('call depth')
         self.frames.append(fn)
         self.env_stack.append(env)
+        self.engine.entered.add((getattr(fn.module, 'name', None), getattr(fn.node, 'lineno', None)))
         saved_loops = self.loop_counter.get(fn.qualname)
         self.loop_counter[fn.qualname] = 0
         try:
